@@ -342,6 +342,20 @@ func init() {
 		}
 		// long enough to consume the scripts over several terms (each demotion costs ~TTL)
 		p.Until = time.Duration(len(p.Insts[0].Health)+10)*p.H + 8*p.TTL
+		// terms that end for another reason in the middle of an unhealthy streak (the record is
+		// removed, or the instance is stopped and started again): the next term counts from zero
+		if r.Bool(0.5) {
+			for k := 0; k < 2+r.Intn(5); k++ {
+				t := r.Dur(2*p.H, p.Until-p.TTL)
+				if r.Bool(0.7) {
+					p.Actions = append(p.Actions, Action{At: t, Kind: Pick(r, []string{AOutDelete, AExpire}), Key: "g1"})
+				} else {
+					i := r.Intn(n)
+					p.Actions = append(p.Actions, Action{At: t, Kind: Pick(r, []string{AStop, AStopCtx}), Inst: i, DeleteKey: true})
+					p.Actions = append(p.Actions, Action{At: t + r.Dur(p.H, 3*p.H), Kind: AStart, Inst: i})
+				}
+			}
+		}
 		for i := range p.Faults {
 			p.Faults[i].To = p.Until // the tail is fault-free
 		}
@@ -1064,6 +1078,11 @@ func init() {
 		p.Until = t + 2*p.TTL + 2*sec
 		p.Tail = 0
 		p.Sched = SchedCfg{YieldProb: Pick(r, []float64{0.1, 0.3, 0.6}), StallMax: Pick(r, []time.Duration{0, p.H / 50, p.H / 50})}
+		if r.Bool(0.3) {
+			// a round that has lost is slow to step back (up to 300 ms before it takes the election
+			// mutex) while another round of the same instance wins
+			p.Sched = SchedCfg{YieldProb: 0.9, StallMax: 300 * ms, StallSites: []string{"becomeFollower", "becomeFollowerUnlessLeader", "acquire.retrycheck"}}
+		}
 		return p
 	}
 }
